@@ -101,6 +101,41 @@ def run(tier: str) -> int:
             if (p["flags"] & ~(1 << 19)) == 0:
                 in_guard += 1
                 in_guard_def += p["defined"] > 0
+    # parts on which model and code disagree and the 24/96 standard states show nothing: many more states for just those parts
+    retry = [(r_name, j) for r_name, j, st in k2_bad if st in (2, 3, 4) and not any(f[0] == r_name and f[1] == j for f in fails) and r_name not in known_sites][:24]
+    if retry:
+        byname = {r["name"]: r for r in results}
+        cases = []
+        for r_name, j in retry:
+            r = byname[r_name]
+            if (r["id"], j) in bodies and r.get("asts") and r["asts"][j]:
+                cases.append((f"{r_name}#{j}", r["asts"][j], bodies[(r["id"], j)]))
+        try:
+            with common.Lock():
+                more = diffrun.probe("C01_retry", cases, [(common.seed() * 17 + i * 13 + 5) % 100003 for i in range(200)])
+            for cid, v in more.items():
+                if v and v.get("bad"):
+                    n_, j_ = cid.rsplit("#", 1)
+                    fails.append((n_, int(j_), v))
+            stats["k2_disagreeing_parts_retried_with_200_states"] = len(cases)
+        except Exception as e:
+            broken.append(Broken("correspondence", "retry of the oracle on K2-disagreeing parts", str(e)[-800:]))
+    # the sample shows a disagreement between model and code but no wrong result: SEARCH the rest of the corpus for a failing part
+    if tier == "quick" and k2_bad and not fails:
+        rest = [n for n in all_names if n not in set(sample)]
+        try:
+            with common.Lock():
+                res2 = corpus.compile_insns(rest)
+                out2, info2, bodies2 = corpus.evaluate("C01_search", res2, diffrun.seeds_for("thorough", common.seed()), noped)
+            byid2 = {r["id"]: r for r in res2}
+            for i, parts in out2.items():
+                for j, p in enumerate(parts):
+                    if p.get("bad") and byid2[i]["name"] not in known_sites:
+                        fails.append((byid2[i]["name"], j, p))
+                        results.append(byid2[i])
+            stats["searched_rest_of_corpus_for_a_failing_part"] = len(rest)
+        except Exception as e:
+            broken.append(Broken("correspondence", "search of the rest of the corpus", str(e)[-800:]))
     for name, kf in known_sites.items():
         if name in known_hit:
             res.known(f"{kf['id']}: {kf['what']} -- call site {name}")
